@@ -589,6 +589,53 @@ func genC15() {
 		sum := sha256.Sum256([]byte(c15Print(fset3, fd)))
 		facts["lease_skel_runCluster"] = fmt.Sprintf("%x", sum[:8])
 	}
+	// loop shape of clusterTicker / leaseHold (the ticker IS executed under virtual
+	// time; these facts tie the ticker theorems to the source text as well):
+	// control-flow skeletons (log/metric statements removed, string literals
+	// blanked) and, readable, the retry count, the two expressions that arm the
+	// lease timer and what leaseHold returns.
+	{
+		fset4, g4 := parseFile("cmd/syncer.go")
+		for _, fn := range []string{"clusterTicker", "leaseHold"} {
+			fd := c15FuncByName(g4, fn)
+			if fd == nil {
+				die("cmd/syncer.go: %s not found", fn)
+			}
+			if fn == "leaseHold" {
+				ast.Inspect(fd.Body, func(n ast.Node) bool {
+					if rs, ok := n.(*ast.ReturnStmt); ok && len(rs.Results) == 1 {
+						facts["lease_hold_expr"] = c15Print(fset4, rs.Results[0])
+					}
+					return true
+				})
+			} else {
+				ast.Inspect(fd.Body, func(n ast.Node) bool {
+					ce, ok := n.(*ast.CallExpr)
+					if !ok {
+						return true
+					}
+					switch c15CallName(ce) {
+					case "Retry":
+						if len(ce.Args) == 2 {
+							facts["lease_ticker_retry"] = c15Print(fset4, ce.Args[1])
+						}
+					case "AfterFunc":
+						if len(ce.Args) == 2 {
+							facts["lease_timer_arm"] = c15Print(fset4, ce.Args[0])
+						}
+					case "Reset":
+						if len(ce.Args) == 1 {
+							facts["lease_timer_rearm"] = c15Print(fset4, ce.Args[0])
+						}
+					}
+					return true
+				})
+			}
+			c15StripLogs(fd.Body)
+			sum := sha256.Sum256([]byte(c15Print(fset4, fd)))
+			facts["lease_skel_"+fn] = fmt.Sprintf("%x", sum[:8])
+		}
+	}
 	// every statement of run() that mentions the ttl handed to the lease store
 	if runFn := c15FuncByName(g, "run"); runFn != nil {
 		var ttlStmts []string
